@@ -153,3 +153,8 @@ Definition ch_choice_fn (e : ch_env) (user : ch_atomic) (raw : ch_raw) : option 
   | Some g => Some (choice_model g e (ch_raw_is_terminal raw))
   | None => None
   end.
+
+(* impl Default for ColorChoice (`Auto`: "use colors if the output device appears to support them") and
+   impl Default for AtomicChoice (the value of `AtomicChoice::new()`: an atomic holding the default choice) *)
+Definition ch_choice_default : choice := ChAuto.
+Definition ch_atomic_default : ch_atomic := ch_atomic_new.
